@@ -142,8 +142,12 @@ CLAIMS = {
              "eviction boundary that exists or can still be published); worker steps and cache limits are invisible. "
              "c07_reads_partial (histories without truncate) is a corollary. The excluded class (an entry re-appended after a "
              "truncation with a log id at or below a boundary) is a recorded finding with a proved counterexample that fails "
-             "AppendsFresh. Correspondence/oracle with small caches x worker steps x drains x restarts x recovery images; restarts "
-             "are covered by the run, not by the read theorem.",
+             "AppendsFresh. ACROSS RESTARTS (Props/C07Restart): a clean restart with ANY new configuration (cache limits 0 included) "
+             "re-establishes the read invariant (c07_clean_restart_keeps_read_invariant), so reads = reference after any number of "
+             "clean cycles and a final history (c07_reads_across_restarts); after crash RECOVERY of any crash image outside the "
+             "rotation-gap class the reads equal the recovered reference prefix and stay correct for every fresh continuation and "
+             "further crash rounds (c07_reads_after_crash_recovery, c07_reads_after_recovery_continue). Correspondence/oracle with "
+             "small caches x worker steps x drains x restarts x recovery images x held snapshots x reader threads.",
              technique="Lean 4 invariant proof (ReadInv over journal + cache + worker, ghost bound for truncations) + correspondence/oracle against the reference log",
              ref="8 C07"),
  "C03": dict(text="Proved in full (c03_crash_prefix, c03_acked_writes_survive; no side hypothesis): for every configuration and every legal "
